@@ -298,6 +298,9 @@ func (ex *Exec) evalPkgMember(p *ssa.Package, name string, env *CEnv, want strin
 	m := p.Members[name]
 	switch x := m.(type) {
 	case *ssa.NamedConst:
+		if implementsError(x.Type()) && x.Value.Value != nil {
+			return TV{V: &IfaceV{Dyn: x.Type(), Sym: errConstSym(x.Type(), x.Value.Value.ExactString())}, T: x.Type()}
+		}
 		return TV{V: ex.constToTerm(x.Value.Value, x.Type(), want), T: x.Type()}
 	case *ssa.Global:
 		return TV{V: ex.loadGlobal(env.state(), x, nil), T: derefType(x.Type())}
